@@ -2,15 +2,15 @@ SPECIFICATION Spec
 CONSTANTS
   Nodes <- ChainNodes
   Pre <- ChainPre
-  Splits <- NoSplits
-  Dyn <- DynB
+  Splits <- ChainSplits
+  Dyn <- NoDyn
   DisBy <- NoDyn
-  MaxF = 2
-  MaxC = 1
+  MaxF = 1
+  MaxC = 2
   MaxAtt = 1
   MaxCrash = 0
   MaxFail = 0
-  EarlyChunks = FALSE
+  EarlyChunks = TRUE
   Survive = FALSE
 VIEW View
 INVARIANTS TypeOK BeliefSound AtMostOnce ExactlyOnceAtEnd FailureFailsRun LockHeld
